@@ -1,10 +1,1705 @@
-//! C05 — stub: property not yet claimed.
+//! C05 — compression is used only as negotiated and configured.
+//!
+//! Drives the real `tonic::server::Grpc` (all four shapes, both the builder route and the
+//! `apply_compression_config` route used by generated servers) and the real
+//! `tonic::client::Grpc` (scripted transport) with a raw-bytes codec and the real
+//! gzip/deflate/zstd compressors.  Observed: the negotiation headers, the compressed-flag and
+//! payload *form* of every frame (judged by decompressing independently with flate2 / zstd), what
+//! the handler / caller received, and the status.
+//!
+//! case lines
+//!   srv.<u|ss|cs|bi> <d|c|D|C> <acc calls> <snd calls> E n hv* A n hv* F n (flag pc msg)* H <reply|fail> n dis M n hv* R rmsg
+//!   cli.<u|ss|cs|bi|U|SS|CS|BI> <snd calls> <acc calls> UE n hv* UA n hv* Q k reqmsg E n hv* HS <none|code> F n (flag pc msg)* TS <none|code>
+//!   pair.<shape> <route> <cli snd> <cli acc> <srv acc> <srv snd> K k H <reply|fail> n dis Q reqmsg R rmsg
+//!     (the client's transport *is* a real `server::Grpc`; both directions are recorded on the way)
+//! calls: string over g,d,z (enable gzip/deflate/zstd) and p (pop; route c only), `-` = none.
 use crate::common::*;
+use bytes::{Buf, BufMut, Bytes};
+use http_body_util::BodyExt;
+use std::future::Future;
+use std::io::Read;
+use std::pin::Pin;
+use std::sync::{Arc, Mutex};
+use std::task::{Context, Poll};
+use tonic::codec::{Codec, CompressionEncoding, DecodeBuf, Decoder, EnabledCompressionEncodings, EncodeBuf, Encoder};
+use tonic::{Request, Response, Status, Streaming};
 
-pub fn generate(_tier: &str, _rng: &mut Rng) -> Vec<String> {
-    Vec::new()
+// ---------------------------------------------------------------- codec
+
+#[derive(Clone, Default)]
+struct RawCodec;
+#[derive(Clone, Default)]
+struct RawEnc;
+#[derive(Clone, Default)]
+struct RawDec;
+
+impl Encoder for RawEnc {
+    type Item = Vec<u8>;
+    type Error = Status;
+    fn encode(&mut self, item: Vec<u8>, dst: &mut EncodeBuf<'_>) -> Result<(), Status> {
+        dst.put_slice(&item);
+        Ok(())
+    }
+}
+impl Decoder for RawDec {
+    type Item = Vec<u8>;
+    type Error = Status;
+    fn decode(&mut self, src: &mut DecodeBuf<'_>) -> Result<Option<Vec<u8>>, Status> {
+        let n = src.remaining();
+        Ok(Some(src.copy_to_bytes(n).to_vec()))
+    }
+}
+impl Codec for RawCodec {
+    type Encode = Vec<u8>;
+    type Decode = Vec<u8>;
+    type Encoder = RawEnc;
+    type Decoder = RawDec;
+    fn encoder(&mut self) -> RawEnc {
+        RawEnc
+    }
+    fn decoder(&mut self) -> RawDec {
+        RawDec
+    }
 }
 
-pub fn execute(_case: &str) -> String {
-    "unclaimed".into()
+// ---------------------------------------------------------------- independent (de)compression
+
+fn enc_of(c: char) -> Option<CompressionEncoding> {
+    match c {
+        'g' => Some(CompressionEncoding::Gzip),
+        'd' => Some(CompressionEncoding::Deflate),
+        'z' => Some(CompressionEncoding::Zstd),
+        _ => None,
+    }
+}
+
+fn compress_with(pc: char, msg: &[u8]) -> Vec<u8> {
+    let mut out = Vec::new();
+    match pc {
+        'g' => {
+            flate2::read::GzEncoder::new(msg, flate2::Compression::new(6)).read_to_end(&mut out).unwrap();
+        }
+        'd' => {
+            flate2::read::ZlibEncoder::new(msg, flate2::Compression::new(6)).read_to_end(&mut out).unwrap();
+        }
+        'z' => {
+            out = zstd::encode_all(msg, 3).unwrap();
+        }
+        _ => out.extend_from_slice(msg),
+    }
+    out
+}
+
+/// Form of `payload` relative to the reference message: r(aw), g/d/z (a valid compression of the
+/// reference under that codec, magic number included), x (anything else).
+fn classify(payload: &[u8], reference: &[u8]) -> char {
+    if payload == reference {
+        return 'r';
+    }
+    if payload.len() >= 2 && payload[0] == 0x1f && payload[1] == 0x8b {
+        let mut out = Vec::new();
+        if flate2::read::GzDecoder::new(payload).read_to_end(&mut out).is_ok() && out == reference {
+            return 'g';
+        }
+    }
+    if payload.len() >= 2 && payload[0] & 0x0f == 8 && (u16::from(payload[0]) * 256 + u16::from(payload[1])) % 31 == 0 {
+        let mut out = Vec::new();
+        if flate2::read::ZlibDecoder::new(payload).read_to_end(&mut out).is_ok() && out == reference {
+            return 'd';
+        }
+    }
+    if payload.len() >= 4 && payload[..4] == [0x28, 0xb5, 0x2f, 0xfd] {
+        if let Ok(out) = zstd::decode_all(payload) {
+            if out == reference {
+                return 'z';
+            }
+        }
+    }
+    'x'
+}
+
+fn wire_frame(flag: u8, payload: &[u8]) -> Vec<u8> {
+    let mut v = Vec::with_capacity(5 + payload.len());
+    v.push(flag);
+    v.put_u32(payload.len() as u32);
+    v.extend_from_slice(payload);
+    v
+}
+
+/// Split a body into gRPC frames; `None` if it is not a whole number of frames.
+fn parse_frames(mut b: &[u8]) -> Option<Vec<(u8, Vec<u8>)>> {
+    let mut out = Vec::new();
+    while !b.is_empty() {
+        if b.len() < 5 {
+            return None;
+        }
+        let flag = b[0];
+        let len = u32::from_be_bytes([b[1], b[2], b[3], b[4]]) as usize;
+        if b.len() < 5 + len {
+            return None;
+        }
+        out.push((flag, b[5..5 + len].to_vec()));
+        b = &b[5 + len..];
+    }
+    Some(out)
+}
+
+fn err_class(st: &Status) -> &'static str {
+    let m = st.message();
+    if st.code() == tonic::Code::Ok {
+        "-"
+    } else if m.starts_with("protocol error: received message with compressed-flag but no grpc-encoding") {
+        "flag-no-enc"
+    } else if m.starts_with("protocol error: received message with invalid compression flag") {
+        "bad-flag"
+    } else if m == "Missing request message." || m == "Missing response message." {
+        "missing"
+    } else if m.starts_with("Error decompressing") {
+        "decompress"
+    } else if m.starts_with("Content is compressed with") {
+        "unsupported"
+    } else if m == "h" {
+        "handler"
+    } else if m == "p" {
+        "peer"
+    } else {
+        "other"
+    }
+}
+
+fn item_err(st: &Status) -> String {
+    format!("e{}:{}", st.code() as i32, err_class(st))
+}
+
+fn header_vals(h: &http::HeaderMap, name: &str) -> String {
+    let vs: Vec<String> = h.get_all(name).iter().map(|v| hex(v.as_bytes())).collect();
+    if vs.is_empty() {
+        "0".into()
+    } else {
+        format!("{} {}", vs.len(), vs.join(" "))
+    }
+}
+
+thread_local! {
+    static RT: tokio::runtime::Runtime = tokio::runtime::Builder::new_current_thread().enable_all().build().unwrap();
+}
+
+// ---------------------------------------------------------------- case parsing
+
+struct Cur<'a> {
+    t: Vec<&'a str>,
+    i: usize,
+}
+impl<'a> Cur<'a> {
+    fn next(&mut self) -> Option<&'a str> {
+        let r = self.t.get(self.i).copied();
+        self.i += 1;
+        r
+    }
+    fn lit(&mut self, s: &str) -> Option<()> {
+        if self.next()? == s {
+            Some(())
+        } else {
+            None
+        }
+    }
+    fn num(&mut self) -> Option<usize> {
+        self.next()?.parse().ok()
+    }
+    fn hexs(&mut self, marker: &str) -> Option<Vec<Vec<u8>>> {
+        self.lit(marker)?;
+        let n = self.num()?;
+        (0..n).map(|_| unhex(self.next()?)).collect()
+    }
+    fn frames(&mut self) -> Option<Vec<(u8, char, Vec<u8>)>> {
+        self.lit("F")?;
+        let n = self.num()?;
+        let mut v = Vec::new();
+        for _ in 0..n {
+            let flag: u8 = self.next()?.parse().ok()?;
+            let pc = self.next()?.chars().next()?;
+            let msg = unhex(self.next()?)?;
+            v.push((flag, pc, msg));
+        }
+        Some(v)
+    }
+    fn optcode(&mut self, marker: &str) -> Option<Option<i32>> {
+        self.lit(marker)?;
+        let t = self.next()?;
+        if t == "none" {
+            Some(None)
+        } else {
+            Some(Some(t.parse().ok()?))
+        }
+    }
+}
+
+fn enabled_from_calls(calls: &str) -> EnabledCompressionEncodings {
+    let mut e = EnabledCompressionEncodings::default();
+    for c in calls.chars() {
+        match c {
+            'p' => {
+                e.pop();
+            }
+            '-' => {}
+            c => e.enable(enc_of(c).expect("call letter")),
+        }
+    }
+    e
+}
+
+// ---------------------------------------------------------------- server side
+
+#[derive(Default)]
+struct Rec {
+    called: bool,
+    saw: Vec<String>,
+}
+
+#[derive(Clone)]
+struct Script {
+    rec: Arc<Mutex<Rec>>,
+    reqmsgs: Arc<Vec<Vec<u8>>>,
+    reply: bool,
+    n: usize,
+    disable: bool,
+    md: Arc<Vec<Vec<u8>>>,
+    rmsg: Arc<Vec<u8>>,
+}
+
+impl Script {
+    fn saw_msg(&self, idx: usize, got: &[u8]) {
+        let reference: &[u8] = self.reqmsgs.get(idx).map(|v| v.as_slice()).unwrap_or(&[]);
+        self.rec.lock().unwrap().saw.push(format!("ok:{}", classify(got, reference)));
+    }
+    fn finish<T>(&self, body: T) -> Result<Response<T>, Status> {
+        if !self.reply {
+            return Err(Status::new(tonic::Code::from(self.n as i32), "h"));
+        }
+        let mut r = Response::new(body);
+        for v in self.md.iter() {
+            let mv = tonic::metadata::MetadataValue::try_from(v.as_slice()).map_err(|_| Status::new(tonic::Code::Unknown, "bad-md"))?;
+            r.metadata_mut().append("grpc-encoding", mv);
+        }
+        if self.disable {
+            r.disable_compression();
+        }
+        Ok(r)
+    }
+}
+
+type BoxFut<T> = Pin<Box<dyn Future<Output = T> + Send>>;
+type MsgStream = tokio_stream::Iter<std::vec::IntoIter<Result<Vec<u8>, Status>>>;
+
+struct UnarySvc(Script);
+impl tower_service::Service<Request<Vec<u8>>> for UnarySvc {
+    type Response = Response<Vec<u8>>;
+    type Error = Status;
+    type Future = BoxFut<Result<Response<Vec<u8>>, Status>>;
+    fn poll_ready(&mut self, _: &mut Context<'_>) -> Poll<Result<(), Status>> {
+        Poll::Ready(Ok(()))
+    }
+    fn call(&mut self, req: Request<Vec<u8>>) -> Self::Future {
+        let s = self.0.clone();
+        Box::pin(async move {
+            s.rec.lock().unwrap().called = true;
+            s.saw_msg(0, req.get_ref());
+            s.finish((*s.rmsg).clone())
+        })
+    }
+}
+
+struct SStreamSvc(Script);
+impl tower_service::Service<Request<Vec<u8>>> for SStreamSvc {
+    type Response = Response<MsgStream>;
+    type Error = Status;
+    type Future = BoxFut<Result<Response<MsgStream>, Status>>;
+    fn poll_ready(&mut self, _: &mut Context<'_>) -> Poll<Result<(), Status>> {
+        Poll::Ready(Ok(()))
+    }
+    fn call(&mut self, req: Request<Vec<u8>>) -> Self::Future {
+        let s = self.0.clone();
+        Box::pin(async move {
+            s.rec.lock().unwrap().called = true;
+            s.saw_msg(0, req.get_ref());
+            let items: Vec<Result<Vec<u8>, Status>> = (0..s.n).map(|_| Ok((*s.rmsg).clone())).collect();
+            s.finish(tokio_stream::iter(items))
+        })
+    }
+}
+
+async fn read_all(s: &Script, mut st: Streaming<Vec<u8>>) -> Result<(), Status> {
+    let mut idx = 0;
+    loop {
+        match st.message().await {
+            Ok(Some(m)) => {
+                s.saw_msg(idx, &m);
+                idx += 1;
+            }
+            Ok(None) => return Ok(()),
+            Err(e) => {
+                s.rec.lock().unwrap().saw.push(item_err(&e));
+                return Err(e);
+            }
+        }
+    }
+}
+
+struct CStreamSvc(Script);
+impl tower_service::Service<Request<Streaming<Vec<u8>>>> for CStreamSvc {
+    type Response = Response<Vec<u8>>;
+    type Error = Status;
+    type Future = BoxFut<Result<Response<Vec<u8>>, Status>>;
+    fn poll_ready(&mut self, _: &mut Context<'_>) -> Poll<Result<(), Status>> {
+        Poll::Ready(Ok(()))
+    }
+    fn call(&mut self, req: Request<Streaming<Vec<u8>>>) -> Self::Future {
+        let s = self.0.clone();
+        Box::pin(async move {
+            s.rec.lock().unwrap().called = true;
+            read_all(&s, req.into_inner()).await?;
+            s.finish((*s.rmsg).clone())
+        })
+    }
+}
+
+struct BidiSvc(Script);
+impl tower_service::Service<Request<Streaming<Vec<u8>>>> for BidiSvc {
+    type Response = Response<MsgStream>;
+    type Error = Status;
+    type Future = BoxFut<Result<Response<MsgStream>, Status>>;
+    fn poll_ready(&mut self, _: &mut Context<'_>) -> Poll<Result<(), Status>> {
+        Poll::Ready(Ok(()))
+    }
+    fn call(&mut self, req: Request<Streaming<Vec<u8>>>) -> Self::Future {
+        let s = self.0.clone();
+        Box::pin(async move {
+            s.rec.lock().unwrap().called = true;
+            read_all(&s, req.into_inner()).await?;
+            let items: Vec<Result<Vec<u8>, Status>> = (0..s.n).map(|_| Ok((*s.rmsg).clone())).collect();
+            s.finish(tokio_stream::iter(items))
+        })
+    }
+}
+
+fn enc_letters(h: &http::HeaderMap) -> String {
+    let v: String = h
+        .get_all("grpc-encoding")
+        .iter()
+        .map(|v| match v.as_bytes() {
+            b"gzip" => 'g',
+            b"deflate" => 'd',
+            b"zstd" => 'z',
+            _ => '?',
+        })
+        .collect();
+    if v.is_empty() {
+        "-".into()
+    } else {
+        v
+    }
+}
+
+fn build_server(route: &str, acc: &str, snd: &str) -> Option<tonic::server::Grpc<RawCodec>> {
+    let mut grpc = tonic::server::Grpc::new(RawCodec);
+    match route.to_ascii_lowercase().as_str() {
+        "d" => {
+            for ch in acc.chars().filter(|c| *c != '-') {
+                grpc = grpc.accept_compressed(enc_of(ch)?);
+            }
+            for ch in snd.chars().filter(|c| *c != '-') {
+                grpc = grpc.send_compressed(enc_of(ch)?);
+            }
+        }
+        "c" => {
+            grpc = grpc.apply_compression_config(enabled_from_calls(acc), enabled_from_calls(snd));
+        }
+        _ => return None,
+    }
+    Some(grpc)
+}
+
+/// Run one call through the real `server::Grpc` and read its response to the end.
+async fn serve_shape<B>(
+    grpc: &mut tonic::server::Grpc<RawCodec>,
+    shape: &str,
+    script: Script,
+    req: http::Request<B>,
+) -> (http::response::Parts, Vec<u8>, Option<http::HeaderMap>)
+where
+    B: http_body::Body + Send + 'static,
+    B::Error: Into<Box<dyn std::error::Error + Send + Sync>> + Send,
+{
+    let resp = match shape {
+        "u" => grpc.unary(UnarySvc(script), req).await,
+        "ss" => grpc.server_streaming(SStreamSvc(script), req).await,
+        "cs" => grpc.client_streaming(CStreamSvc(script), req).await,
+        _ => grpc.streaming(BidiSvc(script), req).await,
+    };
+    let (parts, mut body) = resp.into_parts();
+    let mut data = Vec::new();
+    let mut trailers: Option<http::HeaderMap> = None;
+    let mut after_trailers = false;
+    while let Some(fr) = body.frame().await {
+        match fr {
+            Ok(f) => {
+                if f.is_data() {
+                    if trailers.is_some() {
+                        after_trailers = true;
+                    }
+                    data.extend_from_slice(&f.into_data().unwrap());
+                } else if let Ok(t) = f.into_trailers() {
+                    trailers = Some(t);
+                }
+            }
+            Err(_) => break,
+        }
+    }
+    if after_trailers {
+        data.clear();
+        data.push(0xff);
+    }
+    (parts, data, trailers)
+}
+
+fn srv_tokens(rec: &Rec, headers: &http::HeaderMap, data: &[u8], trailers: Option<&http::HeaderMap>, rmsg: &[u8]) -> String {
+    let (wh, st) = if let Some(st) = Status::from_header_map(headers) {
+        ("hdr", Some(st))
+    } else if let Some(st) = trailers.and_then(Status::from_header_map) {
+        ("trl", Some(st))
+    } else {
+        ("absent", None)
+    };
+    let st_tok = match &st {
+        Some(s) => format!("{} {} {}", wh, s.code() as i32, err_class(s)),
+        None => "absent 0 -".to_string(),
+    };
+    let fr_tok = match parse_frames(data) {
+        Some(fs) => {
+            let v: Vec<String> = fs.iter().map(|(f, p)| format!("{}:{}", f, classify(p, rmsg))).collect();
+            if v.is_empty() {
+                "0".to_string()
+            } else {
+                format!("{} {}", v.len(), v.join(" "))
+            }
+        }
+        None => "malformed".into(),
+    };
+    let saw = if rec.saw.is_empty() { "0".to_string() } else { format!("{} {}", rec.saw.len(), rec.saw.join(" ")) };
+    let summary = match &st {
+        Some(s) => format!("s{}.{}.{}", s.code() as i32, err_class(s), enc_letters(headers)),
+        None => format!("s-.-.{}", enc_letters(headers)),
+    };
+    format!(
+        "{} called {} saw {} enc {} acc {} st {} fr {}",
+        summary,
+        rec.called as u8,
+        saw,
+        header_vals(headers, "grpc-encoding"),
+        header_vals(headers, "grpc-accept-encoding"),
+        st_tok,
+        fr_tok
+    )
+}
+
+fn run_srv(shape: &str, c: &mut Cur<'_>) -> Option<String> {
+    let route = c.next()?;
+    let acc = c.next()?;
+    let snd = c.next()?;
+    let enc_vals = c.hexs("E")?;
+    let acc_vals = c.hexs("A")?;
+    let frames = c.frames()?;
+    c.lit("H")?;
+    let reply = match c.next()? {
+        "reply" => true,
+        "fail" => false,
+        _ => return None,
+    };
+    let n = c.num()?;
+    let disable = c.num()? != 0;
+    let md = c.hexs("M")?;
+    c.lit("R")?;
+    let rmsg = unhex(c.next()?)?;
+
+    let mut grpc = build_server(route, acc, snd)?;
+
+    let mut body = Vec::new();
+    for (flag, pc, msg) in &frames {
+        body.extend_from_slice(&wire_frame(*flag, &compress_with(*pc, msg)));
+    }
+    let mut req = http::Request::builder()
+        .method("POST")
+        .uri("http://h/svc/M")
+        .version(http::Version::HTTP_2)
+        .header("content-type", "application/grpc")
+        .header("te", "trailers");
+    for v in &enc_vals {
+        match http::HeaderValue::from_bytes(v) {
+            Ok(hv) => req = req.header("grpc-encoding", hv),
+            Err(_) => return Some("not-a-header-value".into()),
+        }
+    }
+    for v in &acc_vals {
+        match http::HeaderValue::from_bytes(v) {
+            Ok(hv) => req = req.header("grpc-accept-encoding", hv),
+            Err(_) => return Some("not-a-header-value".into()),
+        }
+    }
+    let req = req.body(http_body_util::Full::new(Bytes::from(body))).ok()?;
+
+    let rec = Arc::new(Mutex::new(Rec::default()));
+    let script = Script {
+        rec: rec.clone(),
+        reqmsgs: Arc::new(frames.iter().map(|f| f.2.clone()).collect()),
+        reply,
+        n,
+        disable,
+        md: Arc::new(md),
+        rmsg: Arc::new(rmsg.clone()),
+    };
+
+    let reused = route.chars().all(|c| c.is_ascii_uppercase());
+    let (parts, data, trailers) = RT.with(|rt| {
+        rt.block_on(async move {
+            if reused {
+                // the same `Grpc` value has already served another call (compressed request,
+                // every encoding offered): nothing of it may leak into this one
+                let prime = Script {
+                    rec: Arc::new(Mutex::new(Rec::default())),
+                    reqmsgs: Arc::new(vec![b"prime".to_vec()]),
+                    reply: true,
+                    n: 1,
+                    disable: false,
+                    md: Arc::new(vec![]),
+                    rmsg: Arc::new(b"primed primed primed".to_vec()),
+                };
+                let preq = http::Request::builder()
+                    .method("POST")
+                    .uri("http://h/svc/M")
+                    .version(http::Version::HTTP_2)
+                    .header("content-type", "application/grpc")
+                    .header("grpc-encoding", "gzip")
+                    .header("grpc-accept-encoding", "zstd,deflate,gzip")
+                    .body(http_body_util::Full::new(Bytes::from(wire_frame(1, &compress_with('g', b"prime")))))
+                    .unwrap();
+                let (_, mut b) = grpc.unary(UnarySvc(prime), preq).await.into_parts();
+                while let Some(fr) = b.frame().await {
+                    if fr.is_err() {
+                        break;
+                    }
+                }
+            }
+            serve_shape(&mut grpc, shape, script, req).await
+        })
+    });
+
+    let rec = rec.lock().unwrap();
+    Some(srv_tokens(&rec, &parts.headers, &data, trailers.as_ref(), &rmsg))
+}
+
+// ---------------------------------------------------------------- client side
+
+#[derive(Default)]
+struct Captured {
+    headers: http::HeaderMap,
+    body: Vec<u8>,
+}
+
+type RespBody = http_body_util::StreamBody<tokio_stream::Iter<std::vec::IntoIter<Result<http_body::Frame<Bytes>, Status>>>>;
+
+#[derive(Clone)]
+struct Transport {
+    cap: Arc<Mutex<Captured>>,
+    enc_vals: Arc<Vec<Vec<u8>>>,
+    hdr_status: Option<i32>,
+    body: Arc<Vec<u8>>,
+    trl_status: Option<i32>,
+}
+
+impl tower_service::Service<http::Request<tonic::body::Body>> for Transport {
+    type Response = http::Response<RespBody>;
+    type Error = Status;
+    type Future = BoxFut<Result<http::Response<RespBody>, Status>>;
+    fn poll_ready(&mut self, _: &mut Context<'_>) -> Poll<Result<(), Status>> {
+        Poll::Ready(Ok(()))
+    }
+    fn call(&mut self, req: http::Request<tonic::body::Body>) -> Self::Future {
+        let t = self.clone();
+        Box::pin(async move {
+            let (parts, mut body) = req.into_parts();
+            let mut data = Vec::new();
+            while let Some(fr) = body.frame().await {
+                if let Ok(f) = fr {
+                    if let Ok(d) = f.into_data() {
+                        data.extend_from_slice(&d);
+                    }
+                } else {
+                    break;
+                }
+            }
+            {
+                let mut c = t.cap.lock().unwrap();
+                c.headers = parts.headers;
+                c.body = data;
+            }
+            let mut frames: Vec<Result<http_body::Frame<Bytes>, Status>> = Vec::new();
+            if !t.body.is_empty() {
+                frames.push(Ok(http_body::Frame::data(Bytes::from((*t.body).clone()))));
+            }
+            if let Some(code) = t.trl_status {
+                let mut h = http::HeaderMap::new();
+                h.insert("grpc-status", http::HeaderValue::from_str(&code.to_string()).unwrap());
+                if code != 0 {
+                    h.insert("grpc-message", http::HeaderValue::from_static("p"));
+                }
+                frames.push(Ok(http_body::Frame::trailers(h)));
+            }
+            let mut resp = http::Response::builder().status(200).version(http::Version::HTTP_2).header("content-type", "application/grpc");
+            for v in t.enc_vals.iter() {
+                resp = resp.header("grpc-encoding", http::HeaderValue::from_bytes(v).unwrap());
+            }
+            if let Some(code) = t.hdr_status {
+                resp = resp.header("grpc-status", code.to_string());
+                if code != 0 {
+                    resp = resp.header("grpc-message", "p");
+                }
+            }
+            Ok(resp.body(http_body_util::StreamBody::new(tokio_stream::iter(frames))).unwrap())
+        })
+    }
+}
+
+type BoxErr = Box<dyn std::error::Error + Send + Sync>;
+
+/// Make one call through the real `client::Grpc` and report the caller-visible items and the
+/// `grpc-accept-encoding` values found in an error's metadata. `None` = the caller's metadata
+/// could not be built.
+fn drive_client<T>(
+    grpc: tonic::client::Grpc<T>,
+    shape: &str,
+    k: usize,
+    reqmsg: &[u8],
+    umd_enc: &[Vec<u8>],
+    umd_acc: &[Vec<u8>],
+    refs: &[Vec<u8>],
+) -> Option<(Vec<String>, Vec<String>)>
+where
+    T: tonic::client::GrpcService<tonic::body::Body> + Clone,
+    T::Error: Into<BoxErr>,
+    T::ResponseBody: http_body::Body + Send + 'static,
+    <T::ResponseBody as http_body::Body>::Error: Into<BoxErr>,
+{
+    fn with_md<M>(mut r: Request<M>, e: &[Vec<u8>], a: &[Vec<u8>]) -> Option<Request<M>> {
+        for v in e {
+            r.metadata_mut().append("grpc-encoding", tonic::metadata::MetadataValue::try_from(v.as_slice()).ok()?);
+        }
+        for v in a {
+            r.metadata_mut().append("grpc-accept-encoding", tonic::metadata::MetadataValue::try_from(v.as_slice()).ok()?);
+        }
+        Some(r)
+    }
+    // upper-case shape: the call is made on a clone of the configured client
+    let cloned = shape.chars().all(|c| c.is_ascii_uppercase());
+    let shape_lc = shape.to_ascii_lowercase();
+    let shape = shape_lc.as_str();
+    let mut grpc = if cloned { grpc.clone() } else { grpc };
+    let path = http::uri::PathAndQuery::from_static("/svc/M");
+    let item_ok = |idx: usize, got: &[u8]| -> String {
+        let reference: &[u8] = refs.get(idx).map(|v| v.as_slice()).unwrap_or(&[]);
+        format!("ok:{}", classify(got, reference))
+    };
+    let eacc = |st: &Status| -> Vec<String> { st.metadata().get_all("grpc-accept-encoding").iter().map(|v| hex(v.as_encoded_bytes())).collect() };
+
+    RT.with(|rt| {
+        rt.block_on(async {
+            let mut items: Vec<String> = Vec::new();
+            let mut errs: Vec<String> = Vec::new();
+            if grpc.ready().await.is_err() {
+                return None;
+            }
+            async fn drain(
+                r: Result<Response<Streaming<Vec<u8>>>, Status>,
+                items: &mut Vec<String>,
+                errs: &mut Vec<String>,
+                item_ok: &dyn Fn(usize, &[u8]) -> String,
+                eacc: &dyn Fn(&Status) -> Vec<String>,
+            ) {
+                match r {
+                    Err(e) => {
+                        items.push(item_err(&e));
+                        errs.extend(eacc(&e));
+                    }
+                    Ok(resp) => {
+                        let mut st = resp.into_inner();
+                        let mut idx = 0;
+                        loop {
+                            match st.message().await {
+                                Ok(Some(m)) => {
+                                    items.push(item_ok(idx, &m));
+                                    idx += 1;
+                                }
+                                Ok(None) => break,
+                                Err(e) => {
+                                    items.push(item_err(&e));
+                                    errs.extend(eacc(&e));
+                                    break;
+                                }
+                            }
+                        }
+                    }
+                }
+            }
+            match shape {
+                "u" => {
+                    let r = with_md(Request::new(reqmsg.to_vec()), umd_enc, umd_acc)?;
+                    match grpc.unary(r, path, RawCodec).await {
+                        Ok(resp) => items.push(item_ok(0, resp.get_ref())),
+                        Err(e) => {
+                            items.push(item_err(&e));
+                            errs.extend(eacc(&e));
+                        }
+                    }
+                }
+                "cs" => {
+                    let msgs: Vec<Vec<u8>> = (0..k).map(|_| reqmsg.to_vec()).collect();
+                    let r = with_md(Request::new(tokio_stream::iter(msgs)), umd_enc, umd_acc)?;
+                    match grpc.client_streaming(r, path, RawCodec).await {
+                        Ok(resp) => items.push(item_ok(0, resp.get_ref())),
+                        Err(e) => {
+                            items.push(item_err(&e));
+                            errs.extend(eacc(&e));
+                        }
+                    }
+                }
+                "ss" => {
+                    let r = with_md(Request::new(reqmsg.to_vec()), umd_enc, umd_acc)?;
+                    let res = grpc.server_streaming(r, path, RawCodec).await;
+                    drain(res, &mut items, &mut errs, &item_ok, &eacc).await;
+                }
+                _ => {
+                    let msgs: Vec<Vec<u8>> = (0..k).map(|_| reqmsg.to_vec()).collect();
+                    let r = with_md(Request::new(tokio_stream::iter(msgs)), umd_enc, umd_acc)?;
+                    let res = grpc.streaming(r, path, RawCodec).await;
+                    drain(res, &mut items, &mut errs, &item_ok, &eacc).await;
+                }
+            }
+            Some((items, errs))
+        })
+    })
+}
+
+fn cli_tokens(req_headers: &http::HeaderMap, req_body: &[u8], reqmsg: &[u8], items: &[String], errs: &[String]) -> String {
+    let fr_tok = match parse_frames(req_body) {
+        Some(fs) => {
+            let v: Vec<String> = fs.iter().map(|(f, p)| format!("{}:{}", f, classify(p, reqmsg))).collect();
+            if v.is_empty() {
+                "0".to_string()
+            } else {
+                format!("{} {}", v.len(), v.join(" "))
+            }
+        }
+        None => "malformed".into(),
+    };
+    let list = |v: &[String]| if v.is_empty() { "0".to_string() } else { format!("{} {}", v.len(), v.join(" ")) };
+    let outcome = match items.last() {
+        None => "none".to_string(),
+        Some(l) if l.starts_with("ok") => "ok".to_string(),
+        Some(l) => l.clone(),
+    };
+    format!(
+        "c{}.{} enc {} acc {} fr {} res {} eacc {}",
+        outcome,
+        enc_letters(req_headers),
+        header_vals(req_headers, "grpc-encoding"),
+        header_vals(req_headers, "grpc-accept-encoding"),
+        fr_tok,
+        list(items),
+        list(errs)
+    )
+}
+
+fn configure_client<T>(mut grpc: tonic::client::Grpc<T>, snd: &str, acc: &str) -> Option<tonic::client::Grpc<T>> {
+    for ch in snd.chars().filter(|c| *c != '-') {
+        grpc = grpc.send_compressed(enc_of(ch)?);
+    }
+    for ch in acc.chars().filter(|c| *c != '-') {
+        grpc = grpc.accept_compressed(enc_of(ch)?);
+    }
+    Some(grpc)
+}
+
+fn run_cli(shape: &str, c: &mut Cur<'_>) -> Option<String> {
+    let snd = c.next()?;
+    let acc = c.next()?;
+    let umd_enc = c.hexs("UE")?;
+    let umd_acc = c.hexs("UA")?;
+    c.lit("Q")?;
+    let k = c.num()?;
+    let reqmsg = unhex(c.next()?)?;
+    let enc_vals = c.hexs("E")?;
+    let hdr_status = c.optcode("HS")?;
+    let frames = c.frames()?;
+    let trl_status = c.optcode("TS")?;
+
+    for v in &enc_vals {
+        if http::HeaderValue::from_bytes(v).is_err() {
+            return Some("not-a-header-value".into());
+        }
+    }
+    let mut body = Vec::new();
+    for (flag, pc, msg) in &frames {
+        body.extend_from_slice(&wire_frame(*flag, &compress_with(*pc, msg)));
+    }
+    let cap = Arc::new(Mutex::new(Captured::default()));
+    let transport = Transport { cap: cap.clone(), enc_vals: Arc::new(enc_vals), hdr_status, body: Arc::new(body), trl_status };
+    let grpc = configure_client(tonic::client::Grpc::new(transport), snd, acc)?;
+    let refs: Vec<Vec<u8>> = frames.iter().map(|f| f.2.clone()).collect();
+    let (items, errs) = match drive_client(grpc, shape, k, &reqmsg, &umd_enc, &umd_acc, &refs) {
+        Some(x) => x,
+        None => return Some("bad-md".into()),
+    };
+    let cap = cap.lock().unwrap();
+    Some(cli_tokens(&cap.headers, &cap.body, &reqmsg, &items, &errs))
+}
+
+// ---------------------------------------------------------------- a real client against a real server
+
+#[derive(Default)]
+struct Wire {
+    req_headers: http::HeaderMap,
+    req_body: Vec<u8>,
+    resp_headers: http::HeaderMap,
+    resp_data: Vec<u8>,
+    resp_trailers: Option<http::HeaderMap>,
+}
+
+/// The client's transport is the server: the request is collected (and recorded), handed to a
+/// real `server::Grpc`, whose response is collected (and recorded) and handed back.
+#[derive(Clone)]
+struct ServerTransport {
+    shape: String,
+    route: String,
+    sacc: String,
+    ssnd: String,
+    script: Script,
+    wire: Arc<Mutex<Wire>>,
+}
+
+impl tower_service::Service<http::Request<tonic::body::Body>> for ServerTransport {
+    type Response = http::Response<RespBody>;
+    type Error = Status;
+    type Future = BoxFut<Result<http::Response<RespBody>, Status>>;
+    fn poll_ready(&mut self, _: &mut Context<'_>) -> Poll<Result<(), Status>> {
+        Poll::Ready(Ok(()))
+    }
+    fn call(&mut self, req: http::Request<tonic::body::Body>) -> Self::Future {
+        let t = self.clone();
+        Box::pin(async move {
+            let (parts, mut body) = req.into_parts();
+            let mut data = Vec::new();
+            while let Some(fr) = body.frame().await {
+                match fr {
+                    Ok(f) => {
+                        if let Ok(d) = f.into_data() {
+                            data.extend_from_slice(&d);
+                        }
+                    }
+                    Err(_) => break,
+                }
+            }
+            {
+                let mut w = t.wire.lock().unwrap();
+                w.req_headers = parts.headers.clone();
+                w.req_body = data.clone();
+            }
+            let req = http::Request::from_parts(parts, http_body_util::Full::new(Bytes::from(data)));
+            let mut grpc = build_server(&t.route, &t.sacc, &t.ssnd).ok_or_else(|| Status::unknown("bad-config"))?;
+            let shape = t.shape.to_ascii_lowercase();
+            let (rparts, rdata, rtrailers) = serve_shape(&mut grpc, &shape, t.script.clone(), req).await;
+            {
+                let mut w = t.wire.lock().unwrap();
+                w.resp_headers = rparts.headers.clone();
+                w.resp_data = rdata.clone();
+                w.resp_trailers = rtrailers.clone();
+            }
+            let mut frames: Vec<Result<http_body::Frame<Bytes>, Status>> = Vec::new();
+            if !rdata.is_empty() {
+                frames.push(Ok(http_body::Frame::data(Bytes::from(rdata))));
+            }
+            if let Some(tr) = rtrailers {
+                frames.push(Ok(http_body::Frame::trailers(tr)));
+            }
+            Ok(http::Response::from_parts(rparts, http_body_util::StreamBody::new(tokio_stream::iter(frames))))
+        })
+    }
+}
+
+/// pair.<shape> <route> <cli snd> <cli acc> <srv acc> <srv snd> K k H <reply|fail> n dis Q reqmsg R rmsg
+fn run_pair(shape: &str, c: &mut Cur<'_>) -> Option<String> {
+    let route = c.next()?;
+    let csnd = c.next()?;
+    let cacc = c.next()?;
+    let sacc = c.next()?;
+    let ssnd = c.next()?;
+    c.lit("K")?;
+    let k = c.num()?;
+    c.lit("H")?;
+    let reply = match c.next()? {
+        "reply" => true,
+        "fail" => false,
+        _ => return None,
+    };
+    let n = c.num()?;
+    let disable = c.num()? != 0;
+    c.lit("Q")?;
+    let reqmsg = unhex(c.next()?)?;
+    c.lit("R")?;
+    let rmsg = unhex(c.next()?)?;
+    build_server(route, sacc, ssnd)?;
+
+    let rec = Arc::new(Mutex::new(Rec::default()));
+    let script = Script {
+        rec: rec.clone(),
+        reqmsgs: Arc::new((0..k.max(1)).map(|_| reqmsg.clone()).collect()),
+        reply,
+        n,
+        disable,
+        md: Arc::new(vec![]),
+        rmsg: Arc::new(rmsg.clone()),
+    };
+    let wire = Arc::new(Mutex::new(Wire::default()));
+    let transport = ServerTransport { shape: shape.to_string(), route: route.to_string(), sacc: sacc.to_string(), ssnd: ssnd.to_string(), script, wire: wire.clone() };
+    let grpc = configure_client(tonic::client::Grpc::new(transport), csnd, cacc)?;
+    let refs: Vec<Vec<u8>> = (0..n.max(1)).map(|_| rmsg.clone()).collect();
+    let (items, errs) = drive_client(grpc, shape, k, &reqmsg, &[], &[], &refs)?;
+    let w = wire.lock().unwrap();
+    let rec = rec.lock().unwrap();
+    let st = srv_tokens(&rec, &w.resp_headers, &w.resp_data, w.resp_trailers.as_ref(), &rmsg);
+    let ct = cli_tokens(&w.req_headers, &w.req_body, &reqmsg, &items, &errs);
+    let summary = st.split(' ').next().unwrap_or("").to_string();
+    Some(format!("p{} S {} C {}", summary, st, ct))
+}
+
+pub fn execute(case: &str) -> String {
+    let mut c = Cur { t: case.split(' ').filter(|s| !s.is_empty()).collect(), i: 0 };
+    let r = match c.next() {
+        Some(k) if k.starts_with("srv.") => run_srv(&k[4..], &mut c),
+        Some(k) if k.starts_with("cli.") => run_cli(&k[4..], &mut c),
+        Some(k) if k.starts_with("pair.") => run_pair(&k[5..], &mut c),
+        _ => None,
+    };
+    r.unwrap_or_else(|| "bad-case".into())
+}
+
+// ---------------------------------------------------------------- generation
+
+fn hexlist(marker: &str, vals: &[Vec<u8>]) -> String {
+    let mut s = format!("{} {}", marker, vals.len());
+    for v in vals {
+        s.push(' ');
+        s.push_str(&hex(v));
+    }
+    s
+}
+
+#[derive(Clone)]
+struct SrvCase {
+    shape: &'static str,
+    route: &'static str,
+    acc: String,
+    snd: String,
+    enc: Vec<Vec<u8>>,
+    accv: Vec<Vec<u8>>,
+    frames: Vec<(u8, char, Vec<u8>)>,
+    reply: bool,
+    n: usize,
+    dis: bool,
+    md: Vec<Vec<u8>>,
+    rmsg: Vec<u8>,
+}
+
+fn frames_tok(frames: &[(u8, char, Vec<u8>)]) -> String {
+    let mut s = format!("F {}", frames.len());
+    for (f, pc, m) in frames {
+        s.push_str(&format!(" {} {} {}", f, pc, hex(m)));
+    }
+    s
+}
+
+impl SrvCase {
+    fn line(&self) -> String {
+        format!(
+            "srv.{} {} {} {} {} {} {} H {} {} {} {} R {}",
+            self.shape,
+            self.route,
+            self.acc,
+            self.snd,
+            hexlist("E", &self.enc),
+            hexlist("A", &self.accv),
+            frames_tok(&self.frames),
+            if self.reply { "reply" } else { "fail" },
+            self.n,
+            self.dis as u8,
+            hexlist("M", &self.md),
+            hex(&self.rmsg)
+        )
+    }
+    fn plain(shape: &'static str, acc: &str, snd: &str) -> SrvCase {
+        SrvCase {
+            shape,
+            route: "d",
+            acc: acc.into(),
+            snd: snd.into(),
+            enc: vec![],
+            accv: vec![],
+            frames: vec![(0, 'r', b"hello request".to_vec())],
+            reply: true,
+            n: 1,
+            dis: false,
+            md: vec![],
+            rmsg: b"hello response hello response".to_vec(),
+        }
+    }
+}
+
+const SHAPES: [&str; 4] = ["u", "ss", "cs", "bi"];
+
+/// all 16 ordered subsets of {g,d,z}
+fn ordered_subsets() -> Vec<String> {
+    let mut v = vec!["-".to_string()];
+    let l = ['g', 'd', 'z'];
+    for a in l {
+        v.push(a.to_string());
+        for b in l {
+            if b != a {
+                v.push(format!("{a}{b}"));
+                for c in l {
+                    if c != a && c != b {
+                        v.push(format!("{a}{b}{c}"));
+                    }
+                }
+            }
+        }
+    }
+    v
+}
+
+fn calls(rng: &mut Rng, allow_pop: bool) -> String {
+    match rng.below(10) {
+        0..=5 => rng.pick(&ordered_subsets()).clone(),
+        6 | 7 => {
+            // with repeats
+            let n = rng.range(1, 6);
+            (0..n).map(|_| *rng.pick(&['g', 'd', 'z'])).collect()
+        }
+        _ => {
+            let n = rng.range(1, 7);
+            let s: String = (0..n).map(|_| if allow_pop && rng.chance(1, 3) { 'p' } else { *rng.pick(&['g', 'd', 'z']) }).collect();
+            s
+        }
+    }
+}
+
+const TOKENS: [&str; 22] = [
+    "gzip", "deflate", "zstd", "identity", "gzip", "zstd", "deflate", "GZIP", "Gzip", "gzipp", "gzi", "", "snappy", "br", "*", "gzip;q=1.0", "x-gzip", "zstd ", "de flate",
+    "identity;q=0", "g", "zstdd",
+];
+const SEPS: [&str; 8] = [",", ",", ", ", " ,", " , ", ",\t", "\t,\t", ",  "];
+
+/// a `grpc-accept-encoding`-like list value
+fn list_value(rng: &mut Rng) -> Vec<u8> {
+    let n = match rng.below(8) {
+        0 => 0,
+        1 | 2 => 1,
+        3 | 4 => 2,
+        5 => 3,
+        6 => 4,
+        _ if rng.chance(1, 25) => rng.range(30, 90),
+        _ => rng.range(5, 9),
+    } as usize;
+    let mut v: Vec<u8> = Vec::new();
+    if rng.chance(1, 6) {
+        v.extend_from_slice(rng.pick(&[" ", "\t", ",", ", ", "  "]).as_bytes());
+    }
+    for i in 0..n {
+        if i > 0 {
+            v.extend_from_slice(rng.pick(&SEPS).as_bytes());
+        }
+        v.extend_from_slice(rng.pick(&TOKENS).as_bytes());
+    }
+    if rng.chance(1, 6) {
+        v.extend_from_slice(rng.pick(&[" ", "\t", ",", " ,", "  "]).as_bytes());
+    }
+    // non-ASCII / odd bytes
+    if rng.chance(1, 8) {
+        let extra: &[u8] = match rng.below(6) {
+            0 => b"\xc3\xa9",
+            1 => b"\xa0",
+            2 => b"\x85",
+            3 => b"\xe2\x80\x83",
+            4 => b"\x80",
+            _ => b"\xff",
+        };
+        let pos = rng.below(v.len() as u64 + 1) as usize;
+        let tail = v.split_off(pos);
+        v.extend_from_slice(extra);
+        v.extend(tail);
+    }
+    if rng.chance(1, 40) {
+        // an arbitrary legal header byte somewhere
+        let b = loop {
+            let b = rng.next() as u8;
+            if (b >= 32 && b != 127) || b == 9 {
+                break b;
+            }
+        };
+        let pos = rng.below(v.len() as u64 + 1) as usize;
+        v.insert(pos, b);
+    }
+    v
+}
+
+/// a `grpc-encoding`-like single value
+fn enc_value(rng: &mut Rng) -> Vec<u8> {
+    match rng.below(12) {
+        0..=5 => rng.pick(&["gzip", "deflate", "zstd", "identity"]).as_bytes().to_vec(),
+        6 | 7 => rng
+            .pick(&["", "Gzip", "GZIP", "gzip ", " gzip", "gzip,deflate", "identity,gzip", "gzip,identity", "Identity", "snappy", "zst", "zstdd", "deflate\t", "g", "identity ", "none", "x"])
+            .as_bytes()
+            .to_vec(),
+        8 => {
+            let mut v = rng.pick(&["gzip", "deflate", "zstd", "identity"]).as_bytes().to_vec();
+            let extras: [&[u8]; 4] = [b"\xc3\xa9", b"\xa0", b"\xff", b"\x80"];
+            let e: &[u8] = *rng.pick(&extras[..]);
+            v.extend_from_slice(e);
+            v
+        }
+        9 => list_value(rng),
+        _ => {
+            // one byte off a real name
+            let mut v = rng.pick(&["gzip", "deflate", "zstd", "identity"]).as_bytes().to_vec();
+            let i = rng.below(v.len() as u64) as usize;
+            match rng.below(3) {
+                0 => v[i] ^= 0x20,
+                1 => {
+                    v.remove(i);
+                }
+                _ => v.insert(i, v[i]),
+            }
+            v
+        }
+    }
+}
+
+fn message(rng: &mut Rng) -> Vec<u8> {
+    let n = match rng.below(8) {
+        0 => 0,
+        1 => 1,
+        2 => 5,
+        3 => 31,
+        4 => 300,
+        _ => rng.range(2, 64),
+    } as usize;
+    // never starts like a gzip / zlib / zstd stream: first byte 0
+    let mut m = vec![0u8; n];
+    for (i, b) in m.iter_mut().enumerate().skip(1) {
+        *b = if i % 3 == 0 { rng.next() as u8 } else { b'a' + (i % 7) as u8 };
+    }
+    m
+}
+
+/// frames for a receiver whose negotiated encoding letter is unknown to the generator: mostly
+/// well-formed for `hint`, boundary-biased on the flag byte
+fn req_frames(rng: &mut Rng, hint: char, max: u64) -> Vec<(u8, char, Vec<u8>)> {
+    let n = match rng.below(10) {
+        0 => 0,
+        1..=6 => 1,
+        7 | 8 => 2.min(max),
+        _ => 3.min(max),
+    };
+    (0..n)
+        .map(|_| {
+            let (flag, pc) = match rng.below(14) {
+                0..=4 => (0u8, 'r'),
+                5..=8 if hint == '-' => (0u8, 'r'),
+                5..=8 => (1u8, hint),
+                9 => (1, *rng.pick(&['g', 'd', 'z'])),
+                10 => (0, *rng.pick(&['g', 'd', 'z'])),
+                11 => (*rng.pick(&[2u8, 3, 128, 129, 254, 255]), *rng.pick(&['r', 'g'])),
+                12 => (1, 'r'),
+                _ => (rng.next() as u8, 'r'),
+            };
+            let mut m = message(rng);
+            if flag == 1 && pc == 'r' && m.is_empty() {
+                m = vec![0, 1, 2];
+            }
+            (flag, pc, m)
+        })
+        .collect()
+}
+
+/// the encodings a call string leaves enabled (generator-side bias only; the oracle for this
+/// lives in Lean)
+fn enabled_letters(calls: &str) -> Vec<char> {
+    let mut v: Vec<char> = Vec::new();
+    for c in calls.chars() {
+        match c {
+            'p' => {
+                v.pop();
+            }
+            '-' => {}
+            c => {
+                if !v.contains(&c) {
+                    v.push(c);
+                }
+            }
+        }
+    }
+    v
+}
+
+fn letter_name(c: char) -> &'static str {
+    match c {
+        'g' => "gzip",
+        'd' => "deflate",
+        _ => "zstd",
+    }
+}
+
+/// a `grpc-encoding` for a receiver configured by `acc`: biased towards acceptable values
+fn enc_for(rng: &mut Rng, acc: &str) -> Vec<Vec<u8>> {
+    let en = enabled_letters(acc);
+    match rng.below(20) {
+        0..=6 => vec![],
+        7..=11 if !en.is_empty() => vec![letter_name(*rng.pick(&en)).as_bytes().to_vec()],
+        7..=11 => vec![b"identity".to_vec()],
+        12 | 13 => vec![b"identity".to_vec()],
+        14..=18 => vec![enc_value(rng)],
+        _ => vec![enc_value(rng), enc_value(rng)],
+    }
+}
+
+fn srv_random(rng: &mut Rng) -> SrvCase {
+    let shape = *rng.pick(&SHAPES);
+    let route = match rng.below(12) {
+        0..=5 => "d",
+        6..=8 => "c",
+        9 | 10 => "D",
+        _ => "C",
+    };
+    let acc = calls(rng, route.eq_ignore_ascii_case("c"));
+    let snd = calls(rng, route.eq_ignore_ascii_case("c"));
+    let enc = enc_for(rng, &acc);
+    let mut accv: Vec<Vec<u8>> = match rng.below(12) {
+        0 => vec![],
+        1..=9 => vec![list_value(rng)],
+        10 => vec![list_value(rng), list_value(rng)],
+        _ => vec![list_value(rng), list_value(rng), list_value(rng)],
+    };
+    // half of the time make sure something the server may send is on offer somewhere in the
+    // first line (as its own element), so that the compressing paths are well populated
+    let sendable = enabled_letters(&snd);
+    if !sendable.is_empty() && !accv.is_empty() && rng.chance(1, 2) {
+        let name = letter_name(*rng.pick(&sendable)).as_bytes();
+        let v = &mut accv[0];
+        let commas: Vec<usize> = v.iter().enumerate().filter(|(_, b)| **b == b',').map(|(i, _)| i).collect();
+        if v.is_empty() {
+            v.extend_from_slice(name);
+        } else if commas.is_empty() || rng.chance(1, 3) {
+            if rng.chance(1, 2) {
+                v.extend_from_slice(b",");
+                v.extend_from_slice(name);
+            } else {
+                let mut w = name.to_vec();
+                w.extend_from_slice(b", ");
+                w.extend_from_slice(v);
+                *v = w;
+            }
+        } else {
+            let at = *rng.pick(&commas);
+            let mut w = v[..=at].to_vec();
+            w.extend_from_slice(name);
+            w.push(b',');
+            w.extend_from_slice(&v[at + 1..]);
+            *v = w;
+        }
+    }
+    let hint = enc.first().and_then(|v| match v.as_slice() {
+        b"gzip" => Some('g'),
+        b"deflate" => Some('d'),
+        b"zstd" => Some('z'),
+        _ => None,
+    });
+    let frames = req_frames(rng, hint.unwrap_or('-'), 3);
+    let reply = !rng.chance(1, 8);
+    let n = if reply { rng.below(4) as usize } else { rng.range(1, 16) as usize };
+    SrvCase {
+        shape,
+        route,
+        acc,
+        snd,
+        enc,
+        accv,
+        frames,
+        reply,
+        n,
+        dis: rng.chance(1, 4),
+        // now and then the handler writes `grpc-encoding` into its own response metadata
+        md: if rng.chance(1, 40) {
+            (0..rng.range(1, 2)).map(|_| rng.pick(&["gzip", "deflate", "zstd", "identity", "snappy"]).as_bytes().to_vec()).collect()
+        } else {
+            vec![]
+        },
+        rmsg: message(rng),
+    }
+}
+
+fn cli_line(
+    shape: &str,
+    snd: &str,
+    acc: &str,
+    ue: &[Vec<u8>],
+    ua: &[Vec<u8>],
+    k: usize,
+    reqmsg: &[u8],
+    enc: &[Vec<u8>],
+    hs: Option<i32>,
+    frames: &[(u8, char, Vec<u8>)],
+    ts: Option<i32>,
+) -> String {
+    let oc = |o: Option<i32>| o.map(|c| c.to_string()).unwrap_or_else(|| "none".into());
+    format!(
+        "cli.{} {} {} {} {} Q {} {} {} HS {} {} TS {}",
+        shape,
+        snd,
+        acc,
+        hexlist("UE", ue),
+        hexlist("UA", ua),
+        k,
+        hex(reqmsg),
+        hexlist("E", enc),
+        oc(hs),
+        frames_tok(frames),
+        oc(ts)
+    )
+}
+
+const SHAPES_CLONED: [&str; 4] = ["U", "SS", "CS", "BI"];
+
+fn cli_random(rng: &mut Rng) -> String {
+    let shape = if rng.chance(1, 4) { *rng.pick(&SHAPES_CLONED) } else { *rng.pick(&SHAPES) };
+    let snd: String = match rng.below(6) {
+        0 | 1 => "-".into(),
+        2 | 3 => rng.pick(&['g', 'd', 'z']).to_string(),
+        _ => (0..rng.range(2, 4)).map(|_| *rng.pick(&['g', 'd', 'z'])).collect(),
+    };
+    let acc = calls(rng, false);
+    let enc = enc_for(rng, &acc);
+    let hint = enc.first().and_then(|v| match v.as_slice() {
+        b"gzip" => Some('g'),
+        b"deflate" => Some('d'),
+        b"zstd" => Some('z'),
+        _ => None,
+    });
+    let frames = req_frames(rng, hint.unwrap_or('-'), 3);
+    let hs = match rng.below(12) {
+        0 => Some(0),
+        1 => Some(rng.range(1, 16) as i32),
+        _ => None,
+    };
+    let ts = match rng.below(8) {
+        0 => None,
+        1 => Some(rng.range(1, 16) as i32),
+        _ => Some(0),
+    };
+    // now and then the caller's own metadata carries the negotiation headers
+    let forged = |rng: &mut Rng| -> Vec<Vec<u8>> {
+        if rng.chance(1, 40) {
+            (0..rng.range(1, 2)).map(|_| rng.pick(&["gzip", "deflate", "zstd", "identity", "gzip,zstd", "snappy"]).as_bytes().to_vec()).collect()
+        } else {
+            vec![]
+        }
+    };
+    let ue = forged(rng);
+    let ua = forged(rng);
+    cli_line(shape, &snd, &acc, &ue, &ua, rng.below(4) as usize, &message(rng), &enc, hs, &frames, ts)
+}
+
+pub fn generate(tier: &str, rng: &mut Rng) -> Vec<String> {
+    let thorough = tier == "thorough";
+    let mut out: Vec<String> = Vec::new();
+
+    // ---- corpus: DESIGN §5.4 witness and neighbours (first known token not enabled for sending)
+    for (snd, av) in [("g", "zstd,gzip"), ("g", "zstd"), ("d", "gzip, deflate"), ("gz", "deflate,zstd,gzip"), ("z", "gzip,deflate"), ("g", "deflate , gzip")] {
+        for shape in SHAPES {
+            let mut c = SrvCase::plain(shape, "-", snd);
+            c.accv = vec![av.as_bytes().to_vec()];
+            out.push(c.line());
+            c.route = "c";
+            out.push(c.line());
+        }
+    }
+
+    // corpus: the negotiation headers supplied by the application itself (known findings
+    // C05-F1..F3: they pass through when the corresponding setting is not configured)
+    for shape in SHAPES {
+        for snd in ["-", "g"] {
+            for md in ["gzip", "zstd"] {
+                let mut c = SrvCase::plain(shape, "-", snd);
+                c.accv = vec![b"gzip".to_vec()];
+                c.md = vec![md.as_bytes().to_vec()];
+                out.push(c.line());
+            }
+        }
+        let fr = vec![(0u8, 'r', b"\0resp".to_vec())];
+        for (snd, acc) in [("-", "-"), ("g", "-"), ("-", "g"), ("z", "dz")] {
+            out.push(cli_line(shape, snd, acc, &[b"gzip".to_vec()], &[], 1, b"\0req", &[], None, &fr, Some(0)));
+            out.push(cli_line(shape, snd, acc, &[], &[b"gzip,identity".to_vec()], 1, b"\0req", &[], None, &fr, Some(0)));
+            out.push(cli_line(shape, snd, acc, &[b"zstd".to_vec(), b"gzip".to_vec()], &[b"deflate".to_vec()], 2, b"\0req", &[], None, &fr, Some(0)));
+        }
+    }
+
+    // ---- structured: the full matrix send-set × accept-header vocabulary (one shape per cell,
+    // rotating), then accept-set × grpc-encoding vocabulary
+    let subsets = ordered_subsets();
+    let accept_vocab: Vec<&str> = vec![
+        "", "gzip", "deflate", "zstd", "identity", "gzip,deflate,zstd", "zstd,deflate,gzip", "deflate,gzip", "identity,gzip", "identity, deflate, gzip", "gzip, zstd", " gzip", "gzip ", "\tzstd\t",
+        ",gzip", "gzip,", ",,deflate,,", "GZIP", "Gzip,deflate", "gzipp,zstd", "gzi p", "gz,ip", "snappy,zstd", "zstd;q=1", "*", "deflate ,\tgzip", "gzip\u{e9}", "\u{a0}gzip", "zstd, gzip\u{2003}",
+    ];
+    let mut rot = 0usize;
+    for snd in &subsets {
+        for av in &accept_vocab {
+            let mut c = SrvCase::plain(SHAPES[rot % 4], "-", snd);
+            rot += 1;
+            c.accv = vec![av.as_bytes().to_vec()];
+            c.n = 2;
+            out.push(c.line());
+        }
+    }
+    let enc_vocab: Vec<&str> = vec!["gzip", "deflate", "zstd", "identity", "", "Gzip", "gzip ", " zstd", "gzip,deflate", "identity,gzip", "snappy", "zst", "deflat\u{e9}"];
+    for acc in &subsets {
+        for ev in &enc_vocab {
+            let mut c = SrvCase::plain(SHAPES[rot % 4], acc, "-");
+            rot += 1;
+            c.enc = vec![ev.as_bytes().to_vec()];
+            let pc = match *ev {
+                "gzip" => 'g',
+                "deflate" => 'd',
+                "zstd" => 'z',
+                _ => 'r',
+            };
+            c.frames = vec![(if pc == 'r' { 0 } else { 1 }, pc, b"\0payload payload payload".to_vec())];
+            out.push(c.line());
+        }
+    }
+    // flag × negotiated encoding × payload coding, all shapes
+    for shape in SHAPES {
+        for ev in ["", "identity", "gzip", "deflate", "zstd"] {
+            for flag in [0u8, 1, 2, 255] {
+                for pc in ['r', 'g', 'd', 'z'] {
+                    let mut c = SrvCase::plain(shape, "gdz", "g");
+                    if !ev.is_empty() {
+                        c.enc = vec![ev.as_bytes().to_vec()];
+                    }
+                    c.frames = vec![(0, 'r', b"\0first".to_vec()), (flag, pc, b"\0second message".to_vec())];
+                    out.push(c.line());
+                    c.frames.remove(0);
+                    out.push(c.line());
+                }
+            }
+        }
+    }
+    // per-response override and handler failure under every chosen encoding
+    for shape in SHAPES {
+        for snd in ["-", "g", "d", "z"] {
+            for dis in [false, true] {
+                let mut c = SrvCase::plain(shape, "-", snd);
+                c.accv = vec![b"gzip,deflate,zstd".to_vec()];
+                c.dis = dis;
+                c.n = 2;
+                out.push(c.line());
+                c.reply = false;
+                c.n = 7;
+                out.push(c.line());
+            }
+        }
+    }
+
+    // every configuration-call sequence up to a length bound, on both routes, observed through
+    // the accept list of a refusal (server) / the advertised list (client)
+    let maxlen = if thorough { 5 } else { 3 };
+    let mut seqs: Vec<String> = vec!["-".to_string()];
+    let mut frontier: Vec<String> = vec![String::new()];
+    for _ in 0..maxlen {
+        let mut next = Vec::new();
+        for s in &frontier {
+            for ch in ['g', 'd', 'z', 'p'] {
+                let t = format!("{s}{ch}");
+                seqs.push(t.clone());
+                next.push(t);
+            }
+        }
+        frontier = next;
+    }
+    for sq in &seqs {
+        let has_pop = sq.contains('p');
+        for route in ["d", "c", "C"] {
+            if has_pop && route == "d" {
+                continue;
+            }
+            let mut c = SrvCase::plain(SHAPES[rot % 4], sq, sq);
+            rot += 1;
+            c.route = route;
+            c.enc = vec![b"x".to_vec()];
+            out.push(c.line());
+            // and through the choice: what does this send-set pick from "zstd,deflate,gzip"?
+            let mut c = SrvCase::plain(SHAPES[rot % 4], "-", sq);
+            c.route = route;
+            c.accv = vec![b"zstd, deflate, gzip".to_vec()];
+            out.push(c.line());
+        }
+        if !has_pop {
+            let fr = vec![(0u8, 'r', b"\0resp".to_vec())];
+            let snd: String = sq.chars().rev().collect();
+            out.push(cli_line(if rot % 2 == 0 { "u" } else { "U" }, &snd, sq, &[], &[], 1, b"\0req", &[], None, &fr, Some(0)));
+        }
+    }
+
+    // client: send × accept matrix; response encodings × accept sets × flags
+    for shape in SHAPES.iter().chain(SHAPES_CLONED.iter()).copied() {
+        for snd in ["-", "g", "d", "z", "gz", "zdg"] {
+            for acc in &subsets {
+                let fr = vec![(0u8, 'r', b"\0resp".to_vec())];
+                out.push(cli_line(shape, snd, acc, &[], &[], 2, b"\0request request request", &[], None, &fr, Some(0)));
+            }
+        }
+    }
+    for acc in &subsets {
+        for ev in &enc_vocab {
+            for flag in [0u8, 1] {
+                let pc = match *ev {
+                    "gzip" => 'g',
+                    "deflate" => 'd',
+                    "zstd" => 'z',
+                    _ => 'r',
+                };
+                let pc = if flag == 0 { 'r' } else { pc };
+                let fr = vec![(flag, pc, b"\0response response".to_vec())];
+                out.push(cli_line(SHAPES[rot % 4], "-", acc, &[], &[], 1, b"\0q", &[ev.as_bytes().to_vec()], None, &fr, Some(0)));
+                rot += 1;
+            }
+        }
+    }
+    for shape in SHAPES {
+        for ev in ["", "identity", "gzip"] {
+            for hs in [None, Some(0), Some(5)] {
+                for ts in [None, Some(0), Some(9)] {
+                    for flag in [0u8, 1, 3] {
+                        let enc: Vec<Vec<u8>> = if ev.is_empty() { vec![] } else { vec![ev.as_bytes().to_vec()] };
+                        let fr = vec![(0u8, 'r', b"\0a".to_vec()), (flag, if flag == 1 { 'g' } else { 'r' }, b"\0bb".to_vec())];
+                        out.push(cli_line(shape, "g", "g", &[], &[], 1, b"\0q", &enc, hs, &fr, ts));
+                    }
+                }
+            }
+        }
+    }
+
+    // ---- a real client against a real server: the full matrix client-send × client-accept ×
+    // server-accept × server-send over all ordered subsets (4 × 16 × 16 × 16), shapes / routes /
+    // stream lengths / handler scripts rotating through it
+    let routes = ["d", "c", "D", "C"];
+    let mut pr = 0usize;
+    for csnd in ["-", "g", "d", "z"] {
+        for cacc in &subsets {
+            for sacc in &subsets {
+                for ssnd in &subsets {
+                    pr += 1;
+                    let shape = if pr % 7 == 0 { SHAPES_CLONED[pr % 4] } else { SHAPES[pr % 4] };
+                    let handler = match pr % 11 {
+                        0 => format!("fail {} 0", 1 + pr % 16),
+                        1 | 2 => format!("reply {} 1", pr % 4),
+                        _ => format!("reply {} 0", pr % 4),
+                    };
+                    out.push(format!(
+                        "pair.{} {} {} {} {} {} K {} H {} Q {} R {}",
+                        shape,
+                        routes[pr % 4],
+                        csnd,
+                        cacc,
+                        sacc,
+                        ssnd,
+                        pr % 3,
+                        handler,
+                        hex(if pr % 5 == 0 { b"" } else { b"\0request request request request" }),
+                        hex(if pr % 6 == 0 { b"" } else { b"\0response response response response" })
+                    ));
+                }
+            }
+        }
+    }
+    let npair = if thorough { 60000 } else { 4000 };
+    for _ in 0..npair {
+        let route = *rng.pick(&routes);
+        let pops = route.eq_ignore_ascii_case("c");
+        let csnd: String = match rng.below(4) {
+            0 => "-".into(),
+            1 | 2 => rng.pick(&['g', 'd', 'z']).to_string(),
+            _ => (0..rng.range(2, 4)).map(|_| *rng.pick(&['g', 'd', 'z'])).collect(),
+        };
+        let handler = match rng.below(10) {
+            0 => format!("fail {} 0", rng.range(1, 16)),
+            1 | 2 => format!("reply {} 1", rng.below(4)),
+            _ => format!("reply {} 0", rng.below(4)),
+        };
+        let shape = if rng.chance(1, 5) { *rng.pick(&SHAPES_CLONED) } else { *rng.pick(&SHAPES) };
+        out.push(format!(
+            "pair.{} {} {} {} {} {} K {} H {} Q {} R {}",
+            shape,
+            route,
+            csnd,
+            calls(rng, false),
+            calls(rng, pops),
+            calls(rng, pops),
+            rng.below(4),
+            handler,
+            hex(&message(rng)),
+            hex(&message(rng))
+        ));
+    }
+
+    // ---- random structured + malformed
+    let (ns, nc) = if thorough { (300000, 150000) } else { (16000, 8000) };
+    for _ in 0..ns {
+        out.push(srv_random(rng).line());
+    }
+    for _ in 0..nc {
+        out.push(cli_random(rng));
+    }
+
+    // ---- thorough: small-scope exhaustive — every ordered subset for send × every list of ≤ 3
+    // tokens over a 6-token alphabet with two separators
+    if thorough {
+        let alpha = ["gzip", "deflate", "zstd", "identity", "x", ""];
+        let mut lists: Vec<String> = vec![];
+        for a in alpha {
+            lists.push(a.to_string());
+            for b in alpha {
+                for sep in [",", ", "] {
+                    lists.push(format!("{a}{sep}{b}"));
+                }
+                for c in alpha {
+                    lists.push(format!("{a},{b},{c}"));
+                }
+            }
+        }
+        for snd in &subsets {
+            for l in &lists {
+                let mut c = SrvCase::plain(SHAPES[rot % 4], "-", snd);
+                rot += 1;
+                c.accv = vec![l.as_bytes().to_vec()];
+                out.push(c.line());
+            }
+        }
+    }
+    out
 }
